@@ -5,7 +5,7 @@ import gen as G
 def get(name):
     P = G.Profile
     if name == "core":
-        return P()
+        return P(p_odd=0.03)
     if name == "kf":            # provoke the known findings on purpose
         return P(kf="allow", n_sides=4, n_apps=2, p_crash=0.0, p_restart=0.01, length=(30, 70),
                  mboxes=["m1"], names=["1", "2"], final_quiesce=False)
@@ -23,9 +23,25 @@ def get(name):
         return P(n_apps=1, n_sides=2, p_malformed=0.03, p_crash=0.0, p_restart=0.02,
                  p_advance=0.05, max_conns=6, names=["1", "2", "7"], length=(30, 80))
     if name == "malformed":     # C17
-        return P(p_malformed=0.6, p_crash=0.0, length=(20, 60))
+        return P(p_malformed=0.6, p_crash=0.0, length=(20, 60), p_odd=0.12)
     if name == "usage":         # C15 C16: usage db always on, many retirements
         return P(n_apps=2, n_sides=3, p_malformed=0.03, p_crash=0.0, p_advance=0.2, length=(20, 60))
+    if name == "restart":       # C11: restarts between a side's visits, with expiry in between, same ids re-used
+        return P(n_apps=2, n_sides=2, p_restart=0.07, p_crash=0.02, p_advance=0.25, p_sweep=0.04,
+                 p_malformed=0.03, p_disconnect=0.10, names=["1", "2"], mboxes=["m1", "m2"], length=(25, 70))
+    if name == "config":        # C18: no crash events (the n-th commit is configuration dependent)
+        return P(n_apps=2, n_sides=3, p_malformed=0.05, p_crash=0.0, p_restart=0.03, p_advance=0.15,
+                 names=["1", "2", "7"], length=(20, 60))
+    if name == "discipline":    # C17: complete commands sent out of order on long-lived connections
+        return P(n_apps=2, n_sides=2, p_malformed=0.4, p_repeat=0.6, p_crash=0.0, p_restart=0.01, p_disconnect=0.03,
+                 p_advance=0.05, max_conns=4, length=(30, 70), p_odd=0.12)
+    if name == "reincarnate":   # C03: the same few names retired (last release / last close) and claimed again, restarts right after
+        return P(n_apps=1, n_sides=2, names=["1", "2"], mboxes=["m1"], p_restart_after_retire=0.5, p_restart=0.03,
+                 p_crash=0.03, p_malformed=0.03, p_advance=0.08, length=(30, 70))
+    if name == "unicode":       # C17: unusual but valid identifiers, exact names vs look-alike twins
+        return P(script="unicode", n_apps=1)
+    if name == "holes":         # C04: size classes filled by explicit claims (numeric and decoys), holes, then allocate
+        return P(script="holes", n_apps=2)
     raise KeyError(name)
 
 
@@ -38,4 +54,9 @@ USAGE_CFGS = [c for c in G.CONFIGS if c.get("usage")] + [
 def cfg_for(name, seed):
     if name == "usage":
         return USAGE_CFGS[seed % len(USAGE_CFGS)]
+    if name == "reincarnate":        # with and without a usage database, in turn
+        return [{"allow_list": True, "usage": False, "blur": None}, {"allow_list": True, "usage": True, "blur": None},
+                {"allow_list": False, "usage": False, "blur": 60}, {"allow_list": True, "usage": True, "blur": 3600}][seed % 4]
+    if name.startswith("holes"):     # listing allowed and disallowed, usage on and off, in turn
+        return G.CONFIGS[seed % len(G.CONFIGS)]
     return None
